@@ -210,6 +210,32 @@ CHECKS = {
         "level_note": "Trusted: harness/tparse (table parser) and the journal reader used to list physical entries before the damage.",
         "assumptions": DBM_ASSUME,
     },
+    "C04": {
+        "test": "TestC04", "level": "fault_enumeration", "engine": "crash",
+        "technique": "crash-point injection over generated workloads: durability-tracking storage, admissible post-crash images, subset-solver oracle (rapid); thorough enumerates every crash instant of each generated history",
+        "quick": {"shards": 16, "n": 400, "timeout": 600},
+        "thorough": {"shards": 16, "n": 40, "timeout": 3000},
+        "floor": {"quick": 2000, "thorough": 30000},
+        "replay_runs": 10,
+        "rule": "rapid draws a workload (puts, deletes, batches, oversized batches, explicit transactions, bursts of concurrent writers released together so that they merge, CompactRange, reopen; per-write Sync flags; tiny buffers; MaxManifestFileSize 1/64/1024/default), a crash instant t among the mutating storage operations (counted from before the first Open), a per-file tail mode (unsynced tail lost / kept / cut at a byte / cut+zeros / cut+garbage) and optionally 1-2 further crash instants inside the recovery Open. The storage captures the durable image atomically at t; writes whose call had returned nil with Sync before t (and transactions whose Commit had returned) are mandatory. Oracle: Open(image) succeeds; the full scan R equals apply(S) for some subset S of the issued batches in issue order containing all mandatory ones (linear-time subset solver; values identify their writer); then 0-25 further operations run against the reopened DB with R as model, C06 invariants on every version. "
+                "Quick: one drawn t per workload; thorough: every t of each workload. Instants before the DB exists (no CURRENT yet) are counted as creation_crash_skipped. Non-trivial: the image differs from the live files (some unsynced tail was cut) or t lies inside background work / rotation (not right before a foreground journal write); distinct = distinct (case, t) fingerprints.",
+        "level_text": "Fault enumeration: crash points of generated histories (all of them in thorough), admissible images sampled per file; the oracle is exact for the property's crash model.",
+        "level_note": "Crash model exactly as the property states: metadata operations (create/remove/rename/SetMeta) atomic and durable, file data durable up to the last Sync. NoSync is never set. The live storage keeps working after the image is taken (no fault injection mixed in).",
+        "assumptions": ["crash model: metadata ops atomic+durable, data durable up to last Sync", "random tail garbage does not forge a CRC (2^-32)"],
+    },
+    "C08": {
+        "test": "TestC08", "level": "fault_enumeration", "engine": "fault",
+        "technique": "fault injection at generated (operation kind, file type, k-th occurrence) positions over generated workloads, subset-solver and per-key admissible-value oracles (rapid)",
+        "quick": {"shards": 16, "n": 150, "timeout": 900},
+        "thorough": {"shards": 16, "n": 5000, "timeout": 3400},
+        "floor": {"quick": 500, "thorough": 15000},
+        "replay_runs": 5,
+        "rule": "rapid draws a workload (writes with Sync mix, reads, CompactRange, reopen, explicit transactions, oversized batches) and a plan of 1-3 faults (kind in create/open/read/write(short)/sync/close/remove/rename/setmeta x file type journal/table/manifest/any x k-th occurrence x repeat 1,2,5 or until healed), armed and healed at drawn steps. While running, every Get must return an error, or a value that is the effect of the last successful write to the key or of a later failed write. After healing (quiescent) and again after close+reopen the full scan must equal apply(S) with all successful writes in S and failed writes optional (subset solver). Continued use is checked with the full model oracle. A quarter of the cases then alter one byte of a table data block at rest: every read returns the stored value or an error. Calls that do not return within 25 s are counted inconclusive here (C09 decides them). "
+                "Non-trivial: >=1 planned fault fired, further operations ran after it, and the case ended with a reopen.",
+        "level_text": "Fault enumeration by position over generated workloads (sampled; thorough raises counts), exact oracle for acknowledged-write preservation and all-or-nothing failed writes.",
+        "level_note": "A failing Write may leave any prefix of its bytes (short write). Read errors are never violations. DisableCompactionBackoff is set so that retries are immediate.",
+        "assumptions": ["values identify their writer", "a failing write may be partially applied to the file (short write)"],
+    },
 }
 
 # Properties not claimed (reason); filled automatically with "not built yet" when absent.
